@@ -173,6 +173,11 @@ def check_addr(ctx, wc, hp, tag='gen', wcs=None):
             cg = 'err'
             ctx.fail('copy:' + name, 'Address(Address(text)) raised', dict(inp, text=s), 'err', exp)
         ctx.expect_model(f'addrcopy {thex(s)}', cg, tag)
+        # re-rendering: the object that came out of the parser (it carries the parsed flags) and its copy, rendered in
+        # every variant, must give the text of the (wc, hash) address in THAT variant - to_str depends on its arguments only
+        if len(hp) == 32 and in_range:
+            check_rerender(ctx, back, s, wc, hp, name, inp, tag)
+            check_rerender(ctx, c if cg != 'err' else None, None, wc, hp, name + '/copy', inp, tag)
     # __hash__ / __eq__ through the tuple form
     try:
         hv = a.__hash__()
@@ -183,6 +188,41 @@ def check_addr(ctx, wc, hp, tag='gen', wcs=None):
             ctx.fail('eqhash:tuple', 'two addresses built from the same (wc, hash) are unequal or hash differently', inp0, 'unequal', 'equal')
     except Exception as e:
         ctx.fail('eqhash:raise', f'__hash__/__eq__ raised {type(e).__name__}', inp0, 'err', 'value')
+
+
+def check_rerender(ctx, obj, text, wc, hp, origin, inp, tag):
+    """obj = an Address obtained through route `origin` (parsed from `text`, or a copy): all 8 friendly variants + raw."""
+    if obj is None:
+        return
+    for var2 in VARIANTS + [None]:
+        n2 = (f'friendly-url{int(var2[0])}b{int(var2[1])}t{int(var2[2])}' if var2 else 'raw')
+        ctx.case(('restr', wc, hp, origin, n2))
+        ctx.count('rerender')
+        try:
+            s2 = obj.to_str(True, *var2) if var2 else obj.to_str(False)
+        except Exception:
+            s2 = None
+        want2 = spec_friendly(wc, hp, *var2) if var2 else spec_raw(wc, hp)
+        if s2 != want2:
+            ctx.fail('rerender:' + n2, f'to_str({n2}) of an address obtained from its {origin} form is not the {n2} text of that address '
+                     '(the object\'s history leaks into the text)', dict(inp, origin=origin, text=text, variant2=n2), s2, want2)
+            continue
+        if text is not None:
+            ctx.expect_model(f'addrrestr {thex(text)} {fl(var2 is not None, bool(var2 and var2[0]), bool(var2 and var2[1]), bool(var2 and var2[2]))}',
+                             'ok ' + s2, tag)
+        if var2:
+            got2, _ = parse_lib(s2)
+            exp2 = f'ok {wc} {hx(hp)} {int(bool(var2[1]))} {int(bool(var2[2]))}'
+            if got2 != exp2:
+                ctx.fail('rerender-parse:' + n2, f'parsing the re-rendered text does not give the requested flags', dict(inp, origin=origin, text=s2), got2, exp2)
+    # default arguments: to_str() = friendly, url-safe, bounceable, not test-only - whatever the object was parsed from
+    try:
+        d = obj.to_str()
+    except Exception:
+        d = None
+    if d != spec_friendly(wc, hp, True, True, False):
+        ctx.fail('rerender:default', f'to_str() with default arguments of an address obtained from its {origin} form is not the bounceable '
+                 'url-safe main-net text', dict(inp, origin=origin, text=text), d, spec_friendly(wc, hp, True, True, False))
 
 
 def check_pair(ctx, wc1, h1, wc2, h2):
